@@ -19,6 +19,9 @@ fn run_case(line: &str) -> String {
       "rope" => rope::rope_case(&mut t),
       "tree" => tree::tree_case(&line_owned),
       "rhist" => hist::rhist_case(&mut t),
+      "thist" => hist::hist_case(&line_owned, false),
+      "chist" => hist::hist_case(&line_owned, true),
+      "pair" => hist::pair_case(&mut t),
       k => panic!("unknown case kind {}", k),
     }
   });
